@@ -287,6 +287,8 @@ def val2bytes(val, att: str) -> bytes:
 
     if atttyp(att) == "X":  # byte
         valb = val
+        if len(valb) != attsiz(att):
+            raise ValueError(f"Attribute type {att} value {val} must be {attsiz(att)} bytes")
     elif atttyp(att) == "C":  # char
         valb = val.encode("utf-8", "backslashreplace") if isinstance(val, str) else val
     elif atttyp(att) in ("E", "I", "L", "U"):  # integer
